@@ -261,7 +261,7 @@ PROPS['C20'] = dict(
 import c14 as _c14
 
 PROPS['C14'] = dict(
-    modules=['SimProc.Props.C14'], prop_files=['SimProc/Props/C14.lean'],
+    modules=['SimProc.Props.C14', 'SimProc.Props.C14Split'], prop_files=['SimProc/Props/C14.lean', 'SimProc/Props/C14Split.lean'],
     families=[('env', 200, 3000), ('floor', 60, 1000)],
     tags=tags(*BASE, 'rec', 'd', 'p'),
     monitors=[], nontrivial=env_nontrivial, stats=op_stats, divergence_is_witness=True,
